@@ -31,7 +31,14 @@ pub fn run(tier: &str) -> Result<Report, String> {
         sem::sweep(&mut rep, &ctx, &fs, Checks { semantic: true, unit: false, entries: Entries::PlainDirty });
         slices.push(json!({"network": b.name, "max_nodes": m, "alphabet": alpha.describe(), "formulae_with_EW_or_AW": fs.len()}));
     }
+    // every pair of coloured sets as arguments of EW / AW, and the defining equivalences
+    let forms = ["%p% EW %q%", "%p% AW %q%", "(%p% EU %q%) | EG %p%", "~ ((~ %q%) EU ((~ %p%) & (~ %q%)))", "%q% => (%p% EW %q%)", "%q% => (%p% AW %q%)", "EX (%p% AW %q%)", "(%p% EW %q%) AW %p%"];
+    let ck = Checks { semantic: true, unit: false, entries: Entries::Ext2 };
+    for name in if tier == "quick" { vec!["tog2"] } else { vec!["tog2", "imp1", "con2"] } {
+        let b = by_name(&nets, name);
+        sem::ops_sweep(&mut rep, &b, &forms, true, ck);
+    }
     rep.set("slices", json!(slices));
-    rep.rule = "all closed formulae up to max_nodes nodes over all operators that contain EW or AW, on the core networks, compared point-wise with the oracle's E[a W b] = E[a U b] or EG a and A[a W b] = not E[not b U (not a and not b)]".into();
+    rep.rule = "all closed formulae up to max_nodes nodes over all operators that contain EW or AW, on the core networks, compared point-wise with the oracle's E[a W b] = E[a U b] or EG a and A[a W b] = not E[not b U (not a and not b)]; plus EW/AW (and their defining right-hand sides) on every pair of coloured sets of tiny networks as wild-card arguments".into();
     Ok(rep)
 }
